@@ -59,7 +59,7 @@ def make_case(rng, kind, c):
         ntup = (np.array(nidx), ndat)
     else:
         ntup = ()
-    return dict(kind=kind, v=v, t=t, lump=bool(rng.random() < 0.5), h=h, hmode=hmode, didx=np.array(didx), ddat=ddat, ntup=ntup, name=c["name"], dmode=dmode)
+    return dict(kind=kind, v=v, t=t, lump=bool(rng.random() < 0.5), h=h, hmode=hmode, didx=np.array(didx), ddat=ddat, ntup=ntup, name=c["name"], dmode=dmode, pres=c.get("pres"), vdtype=c.get("vdtype"))
 
 
 def hvec(case, n):
@@ -104,6 +104,7 @@ class Check(BaseCheck):
         n_tri, n_tet = (24, 8) if self.quick else (300, 100)
         for case in self.problems(self.seed, n_tri, n_tet):
             n = len(case["v"])
+            gen.use(case)
             stats.case(core.mesh_key(case["v"], case["t"], case["didx"].tolist(), case["hmode"], case["lump"]),
                        cls=[case["kind"] + ":" + case["name"], "h:" + case["hmode"], "dirichlet-data:" + case.get("dmode", "normal"), "neumann:%s" % bool(case["ntup"]), "lump:%s" % case["lump"]],
                        sample=dict(kind=case["kind"], name=case["name"], n=n, dirichlet=len(case["didx"]), h=case["hmode"]))
